@@ -17,6 +17,11 @@ CONSTANTS Tier
 
 N(k, name, flags, ch) == [k |-> k, name |-> name, flags |-> flags, ch |-> ch]
 Param(n) == N("param", n, {}, <<>>)
+(* a parameter with a literal default: the inventory records the value the source gives (as JSON text) *)
+ParamD(n, d) == N("param", n, {"default:" \o d}, <<>>)
+DefaultSrcs == {"+2", "-1", "1.5", "+0.5", "None", "True", "'s'", "0x10", "-2.5"}
+ExpDefault(d) == CASE d = "+2" -> "2" [] d = "-1" -> "-1" [] d = "1.5" -> "1.5" [] d = "+0.5" -> "0.5" [] d = "None" -> "null" [] d = "True" -> "true"
+                   [] d = "'s'" -> "\"\\\"s\\\"\"" [] d = "0x10" -> "16" [] d = "-2.5" -> "-2.5"     \* a string value is recorded with its quotes
 Res == N("result", "result_1", {}, <<>>)
 
 Method(kind) ==
@@ -56,7 +61,9 @@ Classes(tier) ==
       nm \in {"Cls", "_PrivCls"}, ct \in BOOLEAN, ca \in BOOLEAN, ms \in MethodSeqs(tier),
       inn \in (IF tier = "quick" THEN {"none", "class2", "enum"} ELSE InnerKinds), sup \in (IF tier = "quick" THEN {"none", "two", "aliased"} ELSE Supers) }
   \cup { ClassN("Cls", ct, TRUE, << Method("inst") >>, "none", "subscripted") : ct \in BOOLEAN }
-Funcs == { N("func", "fun", {}, << Param("a"), Param("b"), Res >>), N("func", "_pfun", {}, << Param("a") >>), N("func", "noargs", {}, <<>>),
+Funcs == { N("func", "dflt", {}, << ParamD("a", "+2"), ParamD("b", "-1"), ParamD("c", "1.5"), ParamD("d", "+0.5"), Res >>),
+           N("func", "dflt2", {}, << ParamD("a", "None"), ParamD("b", "True"), ParamD("c", "'s'"), ParamD("d", "0x10"), ParamD("e", "-2.5"), Res >>),
+           N("func", "fun", {}, << Param("a"), Param("b"), Res >>), N("func", "_pfun", {}, << Param("a") >>), N("func", "noargs", {}, <<>>),
            N("func", "movl", {"overload"}, << Param("a"), Res >>), N("func", "mdovl", {"overload", "deco"}, << Param("a"), Res >>) }
 (* the other enum classes of the standard library: the flag names the base class the enum derives from *)
 EnumB(name, n, base) == [ EnumN(name, n) EXCEPT !.flags = { "base-" \o base } ]
@@ -173,6 +180,8 @@ Judge(m, obs) ==
          : x \in { x \in exp : x.id \notin ids } }
   \cup { [property |-> "C12", clause |-> "Complete", sig |-> "listed-as-another-kind:" \o x.kind \o "-as-" \o e.kind, expected |-> x.kind \o " " \o x.id, observed |-> e.kind]
          : <<x, e>> \in { p \in exp \X E : p[1].id = p[2].id /\ p[1].kind # p[2].kind /\ ~\E e2 \in E : e2.id = p[1].id /\ e2.kind = p[1].kind } }
+  \cup { [property |-> "C12", clause |-> "Defaults", sig |-> "default-value:" \o d, expected |-> ExpDefault(d), observed |-> e.dflt]
+         : <<e, d>> \in { p \in E \X DefaultSrcs : p[1].kind = "param" /\ (\E x \in exp : x.id = p[1].id /\ x.kind = "param" /\ ("default:" \o p[2]) \in x.flags) /\ p[1].dflt # ExpDefault(p[2]) } }
   \cup { [property |-> "C12", clause |-> "Complete", sig |-> "unexpected:" \o e.kind, expected |-> "absent", observed |-> e.id] : e \in { e \in E : e.id \notin expIds } }
   \cup { [property |-> "C12", clause |-> "Flags", sig |-> "flags:" \o x.kind, expected |-> ToString(x.flags), observed |-> ToString({ o.flags : o \in { o \in obsK : o.id = x.id } })]
          : x \in { x \in exp : x.kind \in {"func", "attr"} /\ x.id \in ids /\ [kind |-> x.kind, id |-> x.id, flags |-> { f \in x.flags : f \in {"static", "classmethod", "property"} }] \notin obsK } }
